@@ -2,8 +2,8 @@
 
 package coordinator
 
-// C15 directed tests: one silent regression for a repaired finding and directed campaigns for the
-// findings that are excluded by construction from the main campaigns.
+// C15 directed tests: silent regressions for the repaired findings of this property (each fails
+// with the finding's signature if the defect comes back).
 
 import (
 	"bytes"
@@ -53,10 +53,10 @@ func TestVerifC15DirectedSketchesError(t *testing.T) {
 	st.Sample(map[string]interface{}{"directed": "sketches requests answered with an error"})
 }
 
-// TestVerifC15KFReadGroup: a StoreReadGroup request whose Group mode is not GroupNone/GroupBy, or
+// TestVerifC15DirectedReadGroup: a StoreReadGroup request whose Group mode is not GroupNone/GroupBy, or
 // whose Aggregate type is not Sum/Count, makes storage/reads panic inside the connection goroutine.
-func TestVerifC15KFReadGroup(t *testing.T) {
-	st := verifkit.For("C15", "TestVerifC15KFReadGroup", "directed: well-formed StoreReadGroup envelopes with group mode 1 / 3 / 7 and with aggregate type None / 9 against shard 1")
+func TestVerifC15DirectedReadGroup(t *testing.T) {
+	st := verifkit.For("C15", "TestVerifC15DirectedReadGroup", "directed: well-formed StoreReadGroup envelopes with group mode 1 / 3 / 7 and with aggregate type None / 9 against shard 1")
 	defer st.Flush()
 	defer vC15DropBed()
 	try := func(sig, what string, mut func(r *StoreReadGroupRequest)) {
@@ -73,10 +73,11 @@ func TestVerifC15KFReadGroup(t *testing.T) {
 			t.Fatalf("harness: %v", err)
 		}
 		_, pan, _ := b.feed(vC15Encode(storeReadGroupRequestMessage, int64(len(buf)), buf))
-		st.Case(true, what, fmt.Sprintf("kf:%s:panicked=%v", sig, pan != nil))
+		st.Case(true, what, fmt.Sprintf("directed:%s:panicked=%v", sig, pan != nil))
 		if pan != nil {
 			vC15DropBed()
-			st.KnownReproduced(sig, fmt.Sprintf("%s: handleConn panicked (%v); a data node would exit", what, pan))
+			fmt.Printf("VERIF-CASE %s\n", what)
+			t.Fatalf("%s %s: handleConn panicked (%v); a data node would exit", verifkit.Sig(sig), what, pan)
 		}
 	}
 	for _, g := range []int32{1, 3, 7} {
@@ -95,9 +96,9 @@ func TestVerifC15KFReadGroup(t *testing.T) {
 	st.Sample(map[string]interface{}{"directed": "StoreReadGroup with unsupported group mode / aggregate type"})
 }
 
-// TestVerifC15KFUnsignedPoint: query.encodeUnsignedPoint does not put the value on the wire.
-func TestVerifC15KFUnsignedPoint(t *testing.T) {
-	st := verifkit.For("C15", "TestVerifC15KFUnsignedPoint", "directed: unsigned points with values 1, 7, MaxUint64 through IteratorEncoder and ReaderIterator")
+// TestVerifC15DirectedUnsignedPoint: query.encodeUnsignedPoint does not put the value on the wire.
+func TestVerifC15DirectedUnsignedPoint(t *testing.T) {
+	st := verifkit.For("C15", "TestVerifC15DirectedUnsignedPoint", "directed: unsigned points with values 1, 7, MaxUint64 through IteratorEncoder and ReaderIterator")
 	defer st.Flush()
 	lost := 0
 	for _, v := range []uint64{1, 7, 1<<64 - 1} {
@@ -115,21 +116,21 @@ func TestVerifC15KFUnsignedPoint(t *testing.T) {
 		if err != nil || p == nil {
 			t.Fatalf("%s unsigned point not read back: %v", verifkit.Sig("point-stream-decode-error"), err)
 		}
-		st.Case(true, fmt.Sprintf("value=%d decoded=%d", v, p.Value), fmt.Sprintf("kf:unsigned-value-lost=%v", p.Value != v))
+		st.Case(true, fmt.Sprintf("value=%d decoded=%d", v, p.Value), fmt.Sprintf("directed:unsigned-value-lost=%v", p.Value != v))
 		if p.Value != v {
 			lost++
 		}
 	}
 	if lost > 0 {
-		st.KnownReproduced("unsigned-point-value-not-encoded", fmt.Sprintf("unsigned point values are not put on the wire by the point encoder: %d of 3 streamed values arrived as 0", lost))
+		t.Fatalf("%s unsigned point values are not put on the wire by the point encoder: %d of 3 streamed values arrived as 0", verifkit.Sig("unsigned-point-value-not-encoded"), lost)
 	}
 	st.Sample(map[string]interface{}{"directed": "unsigned point values through the iterator stream", "lost": lost})
 }
 
-// TestVerifC15KFIntegerFill: IteratorOptions.FillValue is only encoded when it is a float64;
+// TestVerifC15DirectedIntegerFill: IteratorOptions.FillValue is only encoded when it is a float64;
 // fill(5) parses to int64(5) and arrives as nil.
-func TestVerifC15KFIntegerFill(t *testing.T) {
-	st := verifkit.For("C15", "TestVerifC15KFIntegerFill", "directed: CreateIteratorRequest whose options carry fill(<integer>) as the InfluxQL parser produces it")
+func TestVerifC15DirectedIntegerFill(t *testing.T) {
+	st := verifkit.For("C15", "TestVerifC15DirectedIntegerFill", "directed: CreateIteratorRequest whose options carry fill(<integer>) as the InfluxQL parser produces it")
 	defer st.Flush()
 	stmt, err := influxql.ParseStatement("SELECT mean(v) FROM cpu WHERE time > 0 AND time < 10m GROUP BY time(1m) fill(5)")
 	if err != nil {
@@ -147,10 +148,10 @@ func TestVerifC15KFIntegerFill(t *testing.T) {
 	if err := got.UnmarshalBinary(buf); err != nil {
 		t.Fatalf("%s %v", verifkit.Sig("roundtrip-error:createIteratorRequest"), err)
 	}
-	dropped := fmt.Sprint(got.Opt.FillValue) != fmt.Sprint(req.Opt.FillValue)
-	st.Case(true, fmt.Sprintf("fill=%v(%T) decoded=%v(%T)", req.Opt.FillValue, req.Opt.FillValue, got.Opt.FillValue, got.Opt.FillValue), fmt.Sprintf("kf:integer-fill-dropped=%v", dropped))
+	dropped := fmt.Sprint(got.Opt.FillValue) != fmt.Sprint(req.Opt.FillValue) // int64(5) -> float64(5) prints the same
+	st.Case(true, fmt.Sprintf("fill=%v(%T) decoded=%v(%T)", req.Opt.FillValue, req.Opt.FillValue, got.Opt.FillValue, got.Opt.FillValue), fmt.Sprintf("directed:integer-fill-dropped=%v", dropped))
 	if dropped {
-		st.KnownReproduced("iterator-options-integer-fill-value-dropped", fmt.Sprintf("fill(5) is parsed to %T(%v); after Marshal+Unmarshal of the iterator options the fill value is %v", req.Opt.FillValue, req.Opt.FillValue, got.Opt.FillValue))
+		t.Fatalf("%s fill(5) is parsed to %T(%v); after Marshal+Unmarshal of the iterator options the fill value is %v", verifkit.Sig("iterator-options-integer-fill-value-dropped"), req.Opt.FillValue, req.Opt.FillValue, got.Opt.FillValue)
 	}
 	st.Sample(map[string]interface{}{"directed": "integer fill value in iterator options", "dropped": dropped})
 }
